@@ -194,3 +194,10 @@ pub open spec fn has_succ(g: &SymbolicAsyncGraph, p: Pt) -> bool { exists|v: int
 // (fixed_points/mod.rs: prepare_to_merge = unit AND not can_flip_i for every i, then restricted to R)
 pub assume_specification[ FixedPoints::symbolic ](g: &SymbolicAsyncGraph, r: &GraphColoredVertices) -> (res: GraphColoredVertices)
     ensures forall|p: Pt| #[trigger] gv(&res).contains(p) <==> unit_of(g).contains(p) && gv(r).contains(p) && !has_succ(g, p);
+
+// API without a contract: calls are accepted, nothing is known about the result
+pub assume_specification[ GraphColoredVertices::approx_cardinality ](a: &GraphColoredVertices) -> (r: f64);
+pub assume_specification[ GraphColoredVertices::exact_cardinality ](a: &GraphColoredVertices) -> (r: u64);
+pub assume_specification[ GraphColoredVertices::symbolic_size ](a: &GraphColoredVertices) -> (r: usize);
+pub assume_specification[ GraphColoredVertices::is_subset ](a: &GraphColoredVertices, b: &GraphColoredVertices) -> (r: bool)
+    ensures r <==> gv(a).subset_of(gv(b));
